@@ -366,7 +366,7 @@ def check_property(prop, tier, repo, only=None, seed=0):
             def _k_all():
                 out = []
                 for crate, uns in by_crate.items():
-                    obls, wall, cmd = run_kani_crate(scr, crate, uns, kinfos, tier, prop, int(os.environ.get('VERIF_JOBS', '16')), LOG_DIR)
+                    obls, wall, cmd = run_kani_crate(scr, crate, uns, kinfos, tier, prop, int(os.environ.get('VERIF_JOBS', '8')), LOG_DIR)
                     out.append((obls, cmd))
                     for un in uns:
                         kinfos[un]['wall_s'] = wall
